@@ -2,14 +2,18 @@
 # C08 mutation self-tests (design/C08.md): every mutation is applied to a scratch copy of /repo by tools/mutate.sh,
 # on top of fixes/C08-log10-base.diff (skipped silently once that fix is in /repo).  Usage: bash harness/c08_mutations.sh
 FIX='patch -p1 -s -N < /verif/fixes/C08-log10-base.diff >/dev/null 2>&1; true'
-run() { echo "=================== $1"; shift; /verif/tools/mutate.sh C08 "$FIX; $* ; echo applied" 2>&1 | grep -v "^WARNING\|^Closed\|^KNOWN" | grep "^\[C08\]\|VIOLATION\|exit=\|failed\|applied\|FAILED\|rej" | cut -c1-330; }
+# optional arguments: the mutations to run (e.g. `bash harness/c08_mutations.sh M8 M17`); default all
+ONLY=" $* "
+want() { [ "$ONLY" = "  " ] || case "$ONLY" in *" $1 "*) true ;; *) false ;; esac; }
+run() { want "${1%% *}" || return 0; echo "=================== $1"; shift; /verif/tools/mutate.sh C08 "$FIX; $*
+echo applied" 2>&1 | grep -v "^WARNING\|^Closed\|^KNOWN" | grep "^\[C08\]\|VIOLATION\|exit=\|failed\|applied\|FAILED" | cut -c1-330; }
 run "M1 reverse piecewise child order (7adfc9a)" "patch -p1 -R < /verif/fixes/C08-piecewise-child-order.diff"
 run "M2 reverse chained comparison (e2724ba)" "patch -p1 -R < /verif/fixes/C08-chained-comparison.diff"
 run "M3 reverse computed stoichiometry sign (0cf2119)" "patch -p1 -R < /verif/fixes/C08-computed-stoichiometry-sign.diff"
 run "M4 reverse initial assignment setSymbol (22ac673)" "patch -p1 -R < /verif/fixes/C08-initial-assignment-symbol.diff"
 
-# M5 overlaps the log10 fix: run it on a plain copy of /repo
-/verif/tools/mutate.sh C08 "patch -p1 -R < /verif/fixes/C08-call-unknown-or-arity.diff ; echo applied" 2>&1 | grep "^\[C08\]\|VIOLATION" | cut -c1-330
+# M5 overlaps the log10 fix (in /repo since b7459c2): take that one out first
+FIX=true run "M5 reverse unknown calls / arity / keywords (f62d241, with b7459c2 reversed first)" "patch -p1 -R -s < /verif/fixes/C08-log10-base.diff && patch -p1 -R -s < /verif/fixes/C08-call-unknown-or-arity.diff"
 E=src/mxlpy/sbml/_export.py
 run "M7 table: sqrt -> AST_FUNCTION_LN" "sed -i 's/\"sqrt\": libsbml.AST_FUNCTION_ROOT/\"sqrt\": libsbml.AST_FUNCTION_LN/' $E"
 run "M8 binop children swapped" "python3 - <<'PY'
@@ -28,3 +32,14 @@ run "M14 arity check dropped for unary table" "python3 - <<'PY'
 p='$E'; s=open(p).read()
 s=s.replace('if (typ := UNARY.get(attr)) is not None and len(node.args) == 1:','if (typ := UNARY.get(attr)) is not None:'); open(p,'w').write(s)
 PY"
+
+# ---- deepening pass (2026-10-02) ----
+I=src/mxlpy/sbml/_import.py
+run "M15 one renaming pass per (parameter, model name) pair (= seeded/C08-1)" "patch -p1 -s < /verif/seeded/C08-1/patch.diff"
+run "M16 read() reuses sys.modules[<stem>] (= seeded/C08-3)" "patch -p1 -s < /verif/seeded/C08-3/patch.diff"
+run "M17 read() memoises the transformed document per path" "python3 - <<'PY'
+p='$I'; s=open(p).read()
+s=s.replace('    model = pysbml.load_and_transform_model(file)\n    out_name','    model = _TRANSFORMED.setdefault(str(file), None) or _TRANSFORMED.__setitem__(str(file), pysbml.load_and_transform_model(file)) or _TRANSFORMED[str(file)]\n    out_name')
+s=s.replace('def read(file: Path) -> Model:','_TRANSFORMED: dict = {}\n\n\ndef read(file: Path) -> Model:'); open(p,'w').write(s)
+PY"
+run "M18 IdentifierReplacer looks a renamed name up again (chains a->b->c collapse)" "sed -i 's/id=self.mapping.get(node.id, node.id),/id=self.mapping.get(self.mapping.get(node.id, node.id), self.mapping.get(node.id, node.id)),/' $E"
